@@ -1,11 +1,17 @@
 import NetVerif.Model.Qpack
 import NetVerif.Model.QpackHuffTable
 import NetVerif.Gen.C33
+import NetVerif.Proofs.Lemmas.QpackRT
 /-!
 C33 — QPACK field sections round-trip and the decoder rejects bad input safely.
+
+Model: `Model/Qpack.lean` over the stream model `Model/H3Stream.lean`.
+The Huffman code is a parameter (`Huff`) constrained by `HuffOK` in the round-trip theorem.
+Preconditions of the round trip that the property text leaves implicit but its second sentence
+implies (the decoder must reject them): no empty field name, pseudo-headers first.
 -/
 namespace NetVerif.Proofs.C33
-open NetVerif NetVerif.Model.H3Stream NetVerif.Model.Qpack
+open NetVerif NetVerif.Model.H3Stream NetVerif.Model.Qpack NetVerif.Proofs.QpackBasic NetVerif.Proofs.C33RT
 
 /-! ### T-tie: regenerated tables and constants -/
 
@@ -22,5 +28,288 @@ theorem gen_error_codes_eq :
     Gen.C33.errH3MessageError = cMessageError ∧
     Gen.C33.errH3FrameError = cFrameError ∧
     Gen.C33.mayIndex = 0 ∧ Gen.C33.neverIndex = 255 := by decide
+
+/-! ### Round trip -/
+
+/-- Full round trip through the regenerated static table: for every field list whose
+lower-cased form the decoder is specified to accept, `decode (encode fs)` returns exactly the
+lower-cased printable-ASCII-named fields, in order, never-index flags and values preserved,
+and consumes exactly the encoded section. -/
+theorem roundtrip (H : Huff) (hH : HuffOK H) (fs : List Field)
+    (hsize : ∀ f ∈ fs, f.name.length < 2 ^ 62 ∧ f.value.length < 2 ^ 62)
+    (hwf : PseudoFirst false (expected fs))
+    (rest : List Nat) (s : St) (hdead : s.dead = false)
+    (hdata : s.data = encode H Gen.C33.staticTable fs ++ rest)
+    (hlim : s.lim = ((encode H Gen.C33.staticTable fs).length : Int)) :
+    ∃ s', decode H Gen.C33.staticTable s = ⟨expected fs, .ok () s'⟩ ∧ s'.lim = 0 ∧ s'.data = rest ∧ s'.dead = false :=
+  decode_encode H hH Gen.C33.staticTable (by rw [gen_staticTable_length]; decide) fs hsize hwf rest s hdead hdata hlim
+
+/-- Non-vacuity: a field list with a pseudo-header, an upper-case name, a never-indexed field and a
+name that is dropped satisfies the hypotheses. -/
+example : PseudoFirst false (expected [⟨false, [58, 112], [47]⟩, ⟨true, [65, 98], [1, 2]⟩, ⟨false, [200], []⟩]) := by
+  simp [expected, lowerHeader, isAsciiPrint, lowerByte, PseudoFirst]
+
+/-- The names delivered are lower-cased and printable ASCII. -/
+theorem expected_names_lower (fs : List Field) : ∀ f ∈ expected fs, ∃ g ∈ fs, lowerHeader g.name = some f.name ∧
+    f.never = g.never ∧ f.value = g.value := by
+  intro f hf
+  simp only [expected, List.mem_filterMap] at hf
+  obtain ⟨g, hg, h⟩ := hf
+  cases hn : lowerHeader g.name with
+  | none => simp [hn] at h
+  | some n => simp [hn] at h; subst h; exact ⟨g, hg, hn, rfl, rfl⟩
+
+/-! ### Prefixed integers -/
+
+/-- Round trip: after the first byte `b` of `appendPrefixedInt first p v` has been read, reading
+the integer returns `v` and consumes exactly the remaining bytes of the encoding. -/
+theorem prefixedInt_roundtrip (first p v : Nat) (hp : p ≤ 8) (hf : first % 2 ^ p = 0) (hv : v < 2 ^ 62)
+    (b : Nat) (tl : List Nat) (henc : appendPrefixedInt first p v = b :: tl)
+    (s : St) (t : List Nat) (hd : s.dead = false) (hpr : s.primed = true)
+    (hdata : s.data = tl ++ t) (hlim : (tl.length : Int) ≤ s.lim) :
+    ∃ s', readPrefixedIntWithByte s b p = .ok v s' ∧ s'.data = t ∧ s'.lim = s.lim - tl.length := by
+  obtain ⟨s', h, hadv, _⟩ := readPrefixedIntWithByte_append first p v hp hf hv b tl henc s t hd hpr hdata hlim
+  exact ⟨s', h, by rw [hadv.data, hdata]; simp, hadv.lim⟩
+
+/-- Overflow guard: whatever the bytes, an accepted prefixed integer fits in an int64. -/
+theorem prefixedInt_bounded (s s' : St) (first p v : Nat) (hp : p ≤ 8)
+    (h : readPrefixedIntWithByte s first p = .ok v s') : v ≤ maxInt64 := by
+  have hM2 : 2 ^ p ≤ 256 := by
+    have : 2 ^ p ≤ 2 ^ 8 := Nat.pow_le_pow_right (by omega) hp
+    simpa using this
+  have hM1 : 1 ≤ 2 ^ p := Nat.one_le_two_pow
+  unfold readPrefixedIntWithByte at h
+  generalize 2 ^ p = M at *
+  simp only at h
+  split at h
+  · simp at h
+    obtain ⟨rfl, _⟩ := h
+    have := Nat.mod_lt first (by omega : M > 0)
+    unfold maxInt64; omega
+  · split at h
+    · split at h
+      · cases h
+      · simp at h; obtain ⟨rfl, _⟩ := h
+        unfold maxInt64 at *; omega
+    all_goals cases h
+
+/-! ### The decoder rejects what it must -/
+
+/-- Required Insert Count ≠ 0 is rejected with QPACK_DECOMPRESSION_FAILED and no field is delivered. -/
+theorem rejects_nonzero_ric (H : Huff) (tbl : List (List Nat × List Nat)) (s s1 : St) (b ric : Nat)
+    (h : readPrefixedInt s 8 = .ok (b, ric) s1) (hric : ric ≠ 0) :
+    decode H tbl s = ⟨[], .err (.plain cQpackDecompressionFailed) s1⟩ := by
+  unfold decode; rw [h]; simp [hric, qpackErr]
+
+/-- References to the dynamic table (indexed with T=0, name reference with T=0, both post-base
+forms) are never accepted. -/
+theorem rejects_dynamic (H : Huff) (tbl : List (List Nat × List Nat)) (s : St) (b : Nat)
+    (hb : (128 ≤ b ∧ b < 192) ∨ (64 ≤ b ∧ b < 128 ∧ b / 16 % 2 = 0) ∨ (8 ≤ b ∧ b < 32)) :
+    ∀ f s', decodeFieldLine H tbl s b ≠ .ok f s' := by
+  intro f s' h
+  unfold decodeFieldLine at h
+  rcases hb with ⟨h1, h2⟩ | ⟨h1, h2, h3⟩ | ⟨h1, h2⟩
+  · have : b / 64 % 2 = 0 := by omega
+    simp only [show b ≥ 128 from h1, if_true, decodeIndexedFieldLine, Out.bind] at h
+    split at h
+    · simp [this] at h
+    all_goals cases h
+  · have hn : ¬ b ≥ 128 := by omega
+    simp only [hn, if_false, show b ≥ 64 from h1, if_true, decodeLiteralNameRef, Out.bind] at h
+    split at h
+    · simp [h3] at h
+    all_goals cases h
+  · have h128 : ¬ b ≥ 128 := by omega
+    have h64 : ¬ b ≥ 64 := by omega
+    have h32 : ¬ b ≥ 32 := by omega
+    simp [h128, h64, h32, show b ≥ 8 from h1] at h
+
+/-- A static index outside the table (≥ 99 for the regenerated table) is rejected. -/
+theorem rejects_bad_static_index (s s1 : St) (b idx : Nat) (hb : b ≥ 128)
+    (h : readPrefixedIntWithByte s b 6 = .ok idx s1) (hidx : idx ≥ 99) :
+    ∀ H : Huff, ∃ e, decodeFieldLine H Gen.C33.staticTable s b = .err e s1 := by
+  intro H
+  have hnone : Gen.C33.staticTable[idx]? = none := by
+    apply List.getElem?_eq_none; rw [gen_staticTable_length]; exact hidx
+  unfold decodeFieldLine
+  simp only [hb, if_true, decodeIndexedFieldLine, Out.bind, h, staticTableEntry, hnone]
+  split
+  · exact ⟨_, rfl⟩
+  · exact ⟨_, rfl⟩
+
+/-- An invalid Huffman string is rejected. -/
+theorem rejects_bad_huffman (H : Huff) (s s1 s3 : St) (first p size : Nat) (data : List Nat)
+    (h1 : readPrefixedIntWithByte s first p = .ok size s1)
+    (hlim : ¬ (s1.lim ≥ 0 ∧ (size : Int) > s1.lim))
+    (h3 : readFull { s1 with allocs := (size, s1.data.length) :: s1.allocs } size = .ok data s3)
+    (hbit : first / 2 ^ p % 2 = 1) (hbad : H.dec data = none) :
+    readPrefixedStringWithByte H s first p = .err (.plain cQpackDecompressionFailed) s3 := by
+  unfold readPrefixedStringWithByte
+  rw [h1]; simp only [hlim, if_false]; rw [h3]; simp [hbit, hbad, qpackErr]
+
+/-! Names are non-empty and pseudo-headers precede regular fields in everything handed to the
+callback, whatever the input bytes and however the decode ends (`PseudoFirst false`). -/
+
+/-- The `sawNonPseudo` flag after delivering `fs`. -/
+def sawAfter : Bool → List Field → Bool
+  | saw, [] => saw
+  | saw, f :: fs =>
+    (match f.name with
+     | [] => sawAfter saw fs
+     | c :: _ => if c = 58 then sawAfter saw fs else sawAfter true fs)
+
+theorem pseudoFirst_snoc (f : Field) (c : Nat) (cs : List Nat) (hname : f.name = c :: cs) :
+    ∀ (acc : List Field) (saw0 : Bool), PseudoFirst saw0 acc → (c = 58 → sawAfter saw0 acc = false) →
+    PseudoFirst saw0 (acc ++ [f]) ∧ sawAfter saw0 (acc ++ [f]) = (if c = 58 then sawAfter saw0 acc else true) := by
+  intro acc
+  induction acc with
+  | nil =>
+    intro saw0 _ h
+    simp only [List.nil_append, PseudoFirst, sawAfter, hname]
+    by_cases hc : c = 58
+    · simp [hc] at h ⊢; exact h
+    · simp [hc]
+  | cons g acc ih =>
+    intro saw0 hpf h
+    simp only [List.cons_append, PseudoFirst, sawAfter] at hpf h ⊢
+    cases hg : g.name with
+    | nil => simp [hg] at hpf
+    | cons d ds =>
+      simp only [hg] at hpf h ⊢
+      by_cases hd : d = 58
+      · simp only [hd, if_true] at hpf h ⊢
+        obtain ⟨r1, r2⟩ := ih saw0 hpf.2 h
+        exact ⟨⟨hpf.1, r1⟩, r2⟩
+      · simp only [hd, if_false] at hpf h ⊢
+        exact ih true hpf h
+
+theorem decodeLoop_fields_ok (H : Huff) (tbl : List (List Nat × List Nat)) :
+    ∀ (fuel : Nat) (s : St) (saw : Bool) (acc : List Field),
+    PseudoFirst false acc → sawAfter false acc = saw →
+    PseudoFirst false (decodeLoop H tbl fuel s saw acc).fields := by
+  intro fuel
+  induction fuel with
+  | zero => intro s saw acc h _; simpa [decodeLoop] using h
+  | succ k ih =>
+    intro s saw acc hacc hsaw
+    unfold decodeLoop
+    split
+    · split
+      · split
+        · rename_i f s2 _
+          split
+          · exact hacc
+          · rename_i c cs hname
+            split
+            · split
+              · exact hacc
+              · rename_i hc hs
+                have := pseudoFirst_snoc f c cs hname acc false hacc (by intro _; rw [hsaw]; simpa using hs)
+                exact ih s2 saw (acc ++ [f]) this.1 (by rw [this.2]; simp [hc, hsaw])
+            · rename_i hc
+              have := pseudoFirst_snoc f c cs hname acc false hacc (by intro h; exact absurd h hc)
+              exact ih s2 true (acc ++ [f]) this.1 (by rw [this.2]; simp [hc])
+        all_goals exact hacc
+      all_goals exact hacc
+    · exact hacc
+
+/-- For arbitrary bytes: no empty name and no pseudo-header after a regular field ever reaches the callback. -/
+theorem decode_fields_ok (H : Huff) (tbl : List (List Nat × List Nat)) (s : St) :
+    PseudoFirst false (decode H tbl s).fields := by
+  unfold decode
+  split
+  · split
+    · simp [PseudoFirst]
+    · split
+      · exact decodeLoop_fields_ok H tbl _ _ false [] (by simp [PseudoFirst]) rfl
+      all_goals simp [PseudoFirst]
+  all_goals simp [PseudoFirst]
+
+/-- Empty names and misplaced pseudo-headers end the decode with H3_MESSAGE_ERROR: one loop step. -/
+theorem rejects_empty_name_or_late_pseudo (H : Huff) (tbl : List (List Nat × List Nat)) (fuel : Nat)
+    (s s1 s2 : St) (saw : Bool) (acc : List Field) (b : Nat) (f : Field)
+    (hlim : s.lim > 0) (hb : readByte s = .ok b s1) (hf : decodeFieldLine H tbl s1 b = .ok f s2)
+    (hbad : f.name = [] ∨ (∃ cs, f.name = 58 :: cs ∧ saw = true)) :
+    decodeLoop H tbl (fuel + 1) s saw acc = ⟨acc, .err (.plain cMessageError) s2⟩ := by
+  unfold decodeLoop
+  simp only [hlim, if_true, hb, hf]
+  rcases hbad with h | ⟨cs, h, hs⟩
+  · simp [h]
+  · simp [h, hs]
+
+/-- First bytes below 8 match no representation and are rejected as an empty name. -/
+theorem unassigned_first_byte_empty_name (H : Huff) (tbl : List (List Nat × List Nat)) (s : St) (b : Nat) (hb : b < 8) :
+    decodeFieldLine H tbl s b = .ok ⟨false, [], []⟩ s := by
+  unfold decodeFieldLine
+  have h1 : ¬ b ≥ 128 := by omega
+  have h2 : ¬ b ≥ 64 := by omega
+  have h3 : ¬ b ≥ 32 := by omega
+  have h4 : ¬ b ≥ 8 := by omega
+  simp [h1, h2, h3, h4]
+
+/-! ### Peer-controlled allocations (candidate finding: the full statement is FALSE today) -/
+
+def finalSt {α : Type} : Out α → Option St
+  | .ok _ s => some s
+  | .err _ s => some s
+  | .panic => none
+  | .hang => none
+
+/-- Every recorded allocation `(size, bytes of the stream not yet consumed)` is covered by bytes
+that were actually received. -/
+def AllocsBounded (st : St) : Prop := ∀ a ∈ st.allocs, a.1 ≤ a.2
+
+/-- "Allocations are bounded by the bytes actually received", for every decode inside a frame. -/
+def AllocStatement : Prop :=
+  ∀ (H : Huff) (tbl : List (List Nat × List Nat)) (s : St), s.dead = false → s.allocs = [] → s.lim ≥ 0 →
+    ∀ st', finalSt (decode H tbl s).final = some st' → AllocsBounded st'
+
+def Hid : Huff := { encLen := fun s => s.length, enc := fun s => s, dec := fun s => some s }
+
+/-- Small witness: a 4-byte section in a frame of declared length 100 whose literal name declares
+50 bytes: 50 bytes are allocated with 0 bytes left on the stream. -/
+def allocWitness : St := { St.fresh [0, 0, 39, 43] with lim := 100 }
+
+/-- The witness of DESIGN §10: literal of length 2^42 in a frame of declared length 2^62 - 1. -/
+def allocWitnessBig : St :=
+  { St.fresh [0, 0, 0x27, 0xf9, 0xff, 0xff, 0xff, 0xff, 0x7f] with lim := 4611686018427387903 }
+
+theorem allocWitness_run : (decode Hid [] allocWitness).final =
+    .err (.plain cQpackDecompressionFailed)
+      { data := [], primed := true, dead := false, lim := 96, allocs := [(50, 0)] } := by rfl
+
+theorem allocWitnessBig_run : (decode Hid [] allocWitnessBig).final =
+    .err (.plain cQpackDecompressionFailed)
+      { data := [], primed := true, dead := false, lim := 4611686018427387894,
+        allocs := [(4398046511104, 0)] } := by rfl
+
+/-- The unchanged code violates the allocation statement. -/
+theorem alloc_full_false : ¬ AllocStatement := by
+  intro h
+  have := h Hid [] allocWitness rfl rfl (by decide) _ (by rw [allocWitness_run]; rfl)
+  have := this (50, 0) (by simp)
+  simp at this
+
+/-- Excluded region of the partial statement, as a decidable predicate on the state at the
+moment a string literal's length has been read: the declared length exceeds the bytes left. -/
+def DeclaredBeyondReceived (size : Nat) (s1 : St) : Bool := decide (size > s1.data.length)
+
+/-- What the code does guarantee (`_partial`): a declared literal length beyond the remaining
+declared frame length is rejected before anything is allocated. So every allocation is bounded by
+the *declared* frame length — which the peer chooses freely up to 2^62 - 1 — not by received bytes. -/
+theorem alloc_guard_partial (H : Huff) (s s1 : St) (first p size : Nat)
+    (h1 : readPrefixedIntWithByte s first p = .ok size s1) (hl : s1.lim ≥ 0) (hbig : (size : Int) > s1.lim) :
+    readPrefixedStringWithByte H s first p = .err (.plain cQpackDecompressionFailed) s1 := by
+  unfold readPrefixedStringWithByte
+  rw [h1]
+  simp [hl, hbig, qpackErr]
+
+/-- The statement that is expected to hold outside the finding's region (frames that have been
+received completely: `lim ≤ bytes present`). Stated, NOT proved here (needs the invariant
+`0 ≤ lim ≤ data.length` carried through every primitive). -/
+def AllocCompleteFrameStatement : Prop :=
+  ∀ (H : Huff) (tbl : List (List Nat × List Nat)) (s : St), s.dead = false → s.allocs = [] → s.lim ≥ 0 →
+    s.lim ≤ s.data.length →
+    ∀ st', finalSt (decode H tbl s).final = some st' → AllocsBounded st'
 
 end NetVerif.Proofs.C33
